@@ -111,41 +111,64 @@ def summarise(I, n, it, st):
     I.loop_summaries[id(n)] = summary
     I.loop_summaries.setdefault("by_line", {})[getattr(n, "lineno", 0)] = summary
     last = {ivar: count - 1}
-    final = {}
-    pending = {}
-    for nm, (en, pre) in entry.items():
-        new = trial.env.get(nm)
-        summary["next"][nm] = new
-        fe = _fv(new) & entry_names
-        if new is None or is_opaque(new):
-            final[nm] = Opaque(f"loop-carried {nm}") if new is None else new; continue
-        if isinstance(new, X) and new.eq(X.var(en)):
-            final[nm] = pre; continue
-        if not fe:
-            if any(is_opaque(l) for l in _leaves(new)):
-                final[nm] = Opaque(f"{nm} opaque in loop")
-            elif is_while: final[nm] = Opaque(f"{nm} after while loop")
-            else: final[nm] = subst_val(new, last)
-            continue
-        if isinstance(new, X):
-            try:
-                inc = new - X.var(en)
-            except Unknown:
-                inc = None
-            if inc is not None and not (inc.fv() & entry_names):
-                if is_while: final[nm] = Opaque(f"{nm} accumulates over a while loop")
-                else: final[nm] = to_x(pre) + mk_sum(ivar, count, inc) if to_x(pre) is not None else Opaque("accumulator with conditional start")
-                summary.setdefault("accumulators", {})[nm] = inc
+
+    def split_cond(vals):
+        for v in vals:
+            stack = [v]
+            while stack:
+                x = stack.pop()
+                if isinstance(x, PV):
+                    if not (_cond_fv(x.cond) & (entry_names | {ivar})) and (getattr(x.cond, "lt", None) is not None or getattr(x.cond, "eq", None) is not None):
+                        return x.cond
+                    stack.append(x.hi); stack.append(x.lo)
+        return None
+
+    def classify(newmap, depth=0):
+        final = {}
+        pending = {}
+        if depth < 4:
+            c = split_cond([v for v in newmap.values() if isinstance(v, PV)])
+            if c is not None:
+                hi = classify({k: pv_restrict(v, c, True) for k, v in newmap.items()}, depth + 1)
+                lo = classify({k: pv_restrict(v, c, False) for k, v in newmap.items()}, depth + 1)
+                return {k: mk_pv(c, hi[k], lo[k]) for k in newmap}
+        for nm, (en, pre) in entry.items():
+            new = newmap.get(nm)
+            fe = _fv(new) & entry_names
+            if new is None or is_opaque(new):
+                final[nm] = Opaque(f"loop-carried {nm}") if new is None else new; continue
+            if isinstance(new, X) and new.eq(X.var(en)):
+                final[nm] = pre; continue
+            if not fe:
+                if any(is_opaque(l) for l in _leaves(new)):
+                    final[nm] = Opaque(f"{nm} opaque in loop")
+                elif is_while: final[nm] = Opaque(f"{nm} after while loop")
+                else: final[nm] = subst_val(new, last)
                 continue
-        pending[nm] = new
-    # ---- Goertzel second-order recurrence
-    if pending and not is_while:
-        gz = _goertzel(pending, entry, ivar, count, entry_names)
-        if gz:
-            final.update(gz); summary["goertzel"] = True
-            for k in gz: pending.pop(k, None)
-    for nm in pending:
-        final[nm] = Opaque(f"loop-carried {nm} (no idiom)")
+            if isinstance(new, X):
+                try:
+                    inc = new - X.var(en)
+                except Unknown:
+                    inc = None
+                if inc is not None and not (inc.fv() & entry_names):
+                    if is_while: final[nm] = Opaque(f"{nm} accumulates over a while loop")
+                    else: final[nm] = to_x(pre) + mk_sum(ivar, count, inc) if to_x(pre) is not None else Opaque("accumulator with conditional start")
+                    summary.setdefault("accumulators", {})[nm] = inc
+                    continue
+            pending[nm] = new
+        # ---- Goertzel second-order recurrence
+        if pending and not is_while:
+            gz = _goertzel(pending, entry, ivar, count, entry_names)
+            if gz:
+                final.update(gz); summary["goertzel"] = True
+                for k in gz: pending.pop(k, None)
+        for nm in pending:
+            final[nm] = Opaque(f"loop-carried {nm} (no idiom)")
+        return final
+
+    newmap = {nm: trial.env.get(nm) for nm in entry}
+    for nm in entry: summary["next"][nm] = newmap[nm]
+    final = classify(newmap)
     # ---- names first bound inside the loop
     for nm in names:
         if nm in entry: continue
